@@ -277,12 +277,38 @@ func installHooks(s *sim) {
 // with runs f as the single stimulus of node n and settles.
 func (s *sim) with(n *simNode, f func()) {
 	s.cur = n
+	syncs := -1
+	var h0 int64
+	if n != nil && n.wal != nil {
+		n.mu.Lock()
+		syncs = n.wal.syncs
+		n.mu.Unlock()
+		h0 = n.cs.GetRoundState().Height
+	}
 	f()
 	s.env.Settle()
 	if n != nil && n.cs != nil {
 		n.cs.VerifDrainStats()
 	}
 	s.cur = nil
+	if n != nil && n.wal != nil && n.isAlive() {
+		n.mu.Lock()
+		adv := n.wal.syncs != syncs
+		n.mu.Unlock()
+		if adv {
+			rs := n.cs.GetRoundState()
+			if rs.Height != h0 {
+				// the height was finished in this event: what the node did in the new height
+				// afterwards rests on records of the old height, which are not replayed; only
+				// "it is in the new height" is durable
+				n.durable = &rsSummary{h: rs.Height, r: 0, step: cstypes.RoundStepNewHeight, lockedR: -1, votes: map[string]string{}}
+			} else {
+				n.durable = summarize(rs)
+			}
+			n.durable.afterRepair = n.repairedAtBoot
+			n.durable.noMarker = n.walPoisoned
+		}
+	}
 	s.afterStimulus(n)
 }
 
